@@ -38,6 +38,27 @@ def showTri (t : Tri) : String := toString t.1.pt ++ "-" ++ toString t.2.1.pt ++
 def parseBool (s : String) : Option Bool :=
   if s = "1" then some true else if s = "0" then some false else none
 
+/-- exactly on the line `cs -> ce` -/
+def onLine (cs ce p : Pt) : Bool := !shInside cs ce p && !shInside ce cs p
+
+/-- decision band of the float implementation: a vertex that was computed by `edge_intersection()` (these are exactly the
+result vertices on the clipping line of their step) lies exactly on a later clipping line it is tested against, so rounding
+decides `is_inside` in the code -/
+def shBand (computed : List Pt) (tol : Rat) (cs : Pt) : List Pt → List Pt → Bool
+  | [], _ => false
+  | ce :: rest, clipped =>
+    let next := clipEdge cs ce tol clipped
+    (popClosing clipped tol).any (fun v => computed.contains v && onLine cs ce v)
+      || shBand (computed ++ next.filter (onLine cs ce)) tol ce rest next
+
+def shLineBand (a b : Pt) (tol : Rat) (cs : Pt) : List Pt → Pt → Pt → Bool
+  | [], _, _ => false
+  | ce :: rest, es, ee =>
+    ((es != a && onLine cs ce es) || (ee != b && onLine cs ce ee)) ||
+    (match clipLineGo tol cs [ce] es ee with
+     | some (p, q) => shLineBand a b tol ce rest p q
+     | none => false)
+
 def fuelFor (n : Nat) : Nat := 40 * (n + 4) * (n + 4) + 1000
 
 def step (line : String) : String :=
@@ -65,15 +86,23 @@ def step (line : String) : String :=
     | some ccw, some tol, some clip, some subj =>
       match mkConvexClip clip ccw tol with
       | none => "err ValueError"
-      | some cl => "ok " ++ showPts (clipPolygon cl tol subj)
+      | some cl =>
+        let band := match cl with
+          | [] => false
+          | c :: cs => shBand [] tol (lastPt c cs) (c :: cs) subj
+        (if band then "band " else "ok ") ++ showPts (clipPolygon cl tol subj)
     | _, _, _, _ => "bad-op"
   | ["shline", ccw, tol, c, a, b] => match parseBool ccw, parseRat tol, parsePts c, parsePt a, parsePt b with
     | some ccw, some tol, some clip, some a, some b =>
       match mkConvexClip clip ccw tol with
       | none => "err ValueError"
-      | some cl => match clipLineConvex cl tol a b with
+      | some cl =>
+        let band := match cl with
+          | [] => false
+          | c :: cs => shLineBand a b tol (lastPt c cs) (c :: cs) a b
+        (if band then "band " else "") ++ (match clipLineConvex cl tol a b with
         | none => "none"
-        | some (p, q) => "ok " ++ showPt p ++ " " ++ showPt q
+        | some (p, q) => "ok " ++ showPt p ++ " " ++ showPt q)
     | _, _, _, _, _ => "bad-op"
   | ["cs", lo, hi, a, b] => match parsePt lo, parsePt hi, parsePt a, parsePt b with
     | some lo, some hi, some a, some b =>
